@@ -29,7 +29,7 @@ REQUIRED_REACH = ['intact-roundtrip', 'nonempty-cookie-seen', 'expired-server-si
                   'tamper:non-ascii', 'tamper:bad-b64-mac', 'tamper:bad-b64-value', 'tamper:missing-sep', 'tamper:quotes',
                   'tamper-rejected', 'two-cookies:steps', 'tampered-cookie-then-stored', 'schedules:first-requests', 'first-requests:both-cookies-presented', 'expiry:session', 'expiry:never', 'expiry:numeric', 'clients:3']
 NSHARDS = 16
-KEYS = ['a', 'user', 'k 1', 'é', 'x=y&z', 'list', 'n', '0', 'long' * 10]
+KEYS = ['a', 'user', 'k 1', 'é', 'e\u0301', '\u212b', '\u00c5', 'x=y&z', 'list', 'n', '0', 'long' * 10]
 TAMPERS = ['flip-mac', 'flip-payload', 'truncate', 'extend', 'swap', 'other-key', 'other-server', 'random', 'non-ascii', 'bad-b64-mac',
            'bad-b64-value', 'missing-sep', 'quotes']
 
@@ -61,13 +61,16 @@ def rand_value(rng, depth=0):
     if r == 2:
         return rng.random() * 1000
     if r == 3:
-        return rng.pick(['', 'plain', 'caf\xe9 ☃', 'a' * 300, '"quoted"', 'sp ace&=?', '日本語', '\x00\x01'])
+        return rng.pick(['', 'plain', 'caf\xe9 ☃', 'a' * 300, '"quoted"', 'sp ace&=?', '日本語', '\x00\x01',
+                         # text that a Unicode normalisation (NFC, NFKC) would respell: stored is stored
+                         'Zoe\u0308', '\u212b \u2126 \u212a', '\uf900', '\u1112\u1161\u11ab', '\ufb01n \uff11', 'q\u0323\u0307 vs q\u0307\u0323',
+                         '\U0001f600 \ud83d', ' lead and trail ', '\r\n\t', '\u2028\u2029', '\\u00e9 %C3%A9 &eacute;'])
     if r == 4:
         return rng.chance(0.5)
     if r == 5 and depth < 3:
         return [rand_value(rng, depth + 1) for _ in range(rng.randint(0, 3))]
     if r == 6 and depth < 3:
-        return dict((rng.pick(['k', 'n', 'é', '']), rand_value(rng, depth + 1)) for _ in range(rng.randint(0, 3)))
+        return dict((rng.pick(['k', 'n', 'é', '', 'e\u0301', '\u00e9', '\u212b', '\u00c5', 'K', '\u212a']), rand_value(rng, depth + 1)) for _ in range(rng.randint(0, 3)))
     return rng.pick(['v1', 'v2', 'token-%d' % rng.randrange(1000)])
 
 
